@@ -455,6 +455,7 @@ func (fr *Frame) step(st *State, ins ssa.Instruction) bool {
 		ch.T = in.Chan.Type()
 		v.T = in.X.Type()
 		fr.atAnchors(st, in, false, map[string]Val{"chan": ch, "value": v})
+		fr.curChanKey = chanKey(in.Chan, in.Chan.Type())
 		fr.chanSendCheck(st, in, fr.anchorName(in, "send"), ch, v)
 		fr.chanOp(st, in, ch, "send", true)
 		fr.nopanic(st, fr.anchorName(in, "send")+"-on-closed", sNot(sSelect(r.get(st, "g|$closed"), ch.S)), in.Pos(), "send on closed channel")
@@ -553,7 +554,7 @@ func (fr *Frame) unop(st *State, in *ssa.UnOp) bool {
 		}
 		if fa, ok := in.X.(*ssa.FieldAddr); ok {
 			fr.guardedRead(st, fa, fr.val(st, fa.X), in.Pos())
-			_ = fa
+			fr.neverClosed(st, fa, v)
 		}
 		fr.set(in, v)
 	case token.NOT:
@@ -574,6 +575,7 @@ func (fr *Frame) unop(st *State, in *ssa.UnOp) bool {
 		x.T = in.X.Type()
 		v.T = et
 		r.assume(st, sImp(sNot(sSelect(r.get(st, "g|$closed"), x.S)), okv.S))
+		fr.curChanKey = chanKey(in.X, in.X.Type())
 		fr.chanRecvAssume(st, x, v, okv)
 		if in.CommaOk {
 			fr.set(in, Val{K: KTuple, Fs: []Val{v, okv}})
@@ -1051,6 +1053,7 @@ func (fr *Frame) selectOp(st *State, in *ssa.Select) {
 			ch.T = s.Chan.Type()
 			v.T = et
 			r.assume(sub, sImp(sNot(sSelect(r.get(st, "g|$closed"), ch.S)), okv))
+			fr.curChanKey = chanKey(s.Chan, s.Chan.Type())
 			fr.chanRecvAssume(sub, ch, v, boolVal(okv))
 		} else {
 			sv := fr.val(st, s.Send)
@@ -1059,11 +1062,13 @@ func (fr *Frame) selectOp(st *State, in *ssa.Select) {
 			sub := st.clone()
 			sub.pc = sAnd(st.pc, sEq(idx, fmt.Sprint(i)))
 			ch.T = s.Chan.Type()
+			fr.curChanKey = chanKey(s.Chan, s.Chan.Type())
 			fr.chanSendCheck(sub, in, fr.anchorName(in, "select")+fmt.Sprintf(".send%d", i), ch, sv)
 			fr.r.require(sub, "nopanic", fr.oblFunc(), fr.oblName(fr.anchorName(in, "select")+fmt.Sprintf(".send%d-on-closed", i)),
 				sNot(sSelect(r.get(st, "g|$closed"), ch.S)), fr.nopanicTags(), in.Pos(), "send on closed channel in select")
 		}
 	}
+	fr.atAnchors(st, in, false, names)
 	fr.selectDiscipline(st, in, names)
 	fr.set(in, res)
 	r.names[fr.inst+":"+fr.anchorName(in, "select")+".index"] = idx
